@@ -334,6 +334,12 @@ func (p *queryPlan) processClause(ctx context.Context, cls *semantic.GraphClause
 		if err != nil {
 			return false, err
 		}
+		if len(tbl.Bindings()) == 0 && len(p.tbl.Bindings()) > 0 {
+			// The clause binds nothing: it only has to hold. The solutions found
+			// so far stay as they are (or are all dropped by the caller if it
+			// does not hold).
+			return b, nil
+		}
 		if err := p.tbl.AppendTable(tbl); err != nil {
 			return b, err
 		}
